@@ -5,6 +5,7 @@ CONSTANTS
   QuietClears = FALSE
   Flags <- NoFlags
   Verbs <- NoFlags
+  Indents <- NoFlags
   QuietOps = FALSE
   W = 7
   Lens <- LensW7
